@@ -150,6 +150,17 @@ class Pool:
 
 
 # ----------------------------------------------------------------------------------------------------
+def harness_version():
+    """content hash of the simulation machinery: a replay is exact only for the version that recorded it"""
+    h = hashlib.sha256()
+    for d in ('sim', 'checks'):
+        for f in sorted(os.listdir(os.path.join(VERIF, d))):
+            if f.endswith('.py'):
+                with open(os.path.join(VERIF, d, f), 'rb') as fh:
+                    h.update(f.encode() + fh.read())
+    return h.hexdigest()[:12]
+
+
 def load_known_findings():
     p = os.path.join(VERIF, 'known_findings.json')
     if not os.path.exists(p):
@@ -327,6 +338,9 @@ def main(argv=None):
         vs = viols_of(msg, prop)
         same = [v for v in vs if v.get('sig') == rp['violation']['sig']]
         log('replay seed=%s digest=%s (recorded %s)' % (rp.get('seed'), msg['result'].get('digest'), rp.get('digest')))
+        if rp.get('harness_version') and rp['harness_version'] != harness_version():
+            log('note: this replay file was recorded by another version of the machinery (%s, now %s); the decision list '
+                'is replayed as recorded, but events the harness itself adds may shift it' % (rp['harness_version'], harness_version()))
         for v in vs:
             log('  violation: %s' % json.dumps(v, default=repr)[:2000])
         if args.verbose:
@@ -441,6 +455,7 @@ def main(argv=None):
             fr = fmsg.get('result') or {}
             fv = [x for x in fr.get('violations', []) if x.get('property') == prop and x.get('sig') == sig]
             rp = {'property': prop, 'check': args.check, 'seed': job['seed'], 'index': job['index'],
+                  'harness_version': harness_version(),
                   'verif_seed': base_seed, 'case': case, 'schedule': schedule, 'opts': opts,
                   'digest': fr.get('digest'), 'violation': (fv[0] if fv else v),
                   'events': fr.get('events', []), 'original_case': job['case']}
